@@ -4,7 +4,7 @@
    node kinds and ranges, diagnostic ranges and messages, which guard of humanString fired. *)
 From Coq Require Import String List NArith ZArith Bool.
 From J5V.lib Require Import Text Outcome Corr.
-From J5V.model Require Import BclLexer BclParser BclErrpos BclErrposText.
+From J5V.model Require Import BclLexer BclParser BclErrpos BclErrposText BclErrposGen.
 Import ListNotations.
 Local Open Scope bool_scope.
 
@@ -36,6 +36,10 @@ Definition hres_eqb (a b : hres) : bool :=
   | _, _ => false
   end.
 
+(* a diagnostic of any producer: Pos (nil | file name (nil | bytes), start, end), Ctx (nil | path), Err (nil | text) *)
+Definition ogdiag : Type := (option (option (list N) * pos * pos) * option (list (list N)) * option (list N))%type.
+Definition gdiag_of_obs (o : ogdiag) : gdiag := let '(p, c, m) := o in mkG p c m.
+
 Inductive c11case :=
 (* one input, one value of failFast: AllTokens, walkFragments, ParseFile *)
 | CFile (input : list N) (ff : bool)
@@ -50,7 +54,10 @@ Inductive c11case :=
 | CHumanText (input : list N) (context : Z) (ds : list odiag) (text : list N)
 (* ParseFile on "a = " + opens x "[" + closes x "]" (+ newline when closes > 0), the input built here: the
    boundary of the array nesting bound, compared on the projected result (tree nil, statements, diagnostics) *)
-| CDeep (opens closes : N) (ff : bool) (treenil : bool) (nstmts : N) (diags : list odiag).
+| CDeep (opens closes : N) (ff : bool) (treenil : bool) (nstmts : N) (diags : list odiag)
+(* HumanString(context) for diagnostics of any producer (nil Pos, file name, context path, nil Err), byte for byte
+   (model: BclErrposGen.human_text_g_bytes) *)
+| CHumanTextG (input : list N) (context : Z) (gs : list ogdiag) (text : list N).
 
 Definition c11_check (c : c11case) : bool :=
   match c with
@@ -95,6 +102,11 @@ Definition c11_check (c : c11case) : bool :=
       Bool.eqb (match ptree p with None => true | Some _ => false end) treenil
       && N.eqb (N.of_nat (match ptree p with None => O | Some b => length b end)) nstmts
       && list_eqb odiag_eqb (map diag_obs (pdiags p)) diags
+    | _ => false
+    end
+  | CHumanTextG input context gs text =>
+    match human_text_g_bytes input context (map gdiag_of_obs gs) with
+    | Ok t => list_N_eqb t text
     | _ => false
     end
   end.
